@@ -15,6 +15,7 @@ import (
 	"io"
 	"net"
 	"os"
+	"runtime/debug"
 	"strings"
 	"time"
 
@@ -124,10 +125,21 @@ func ctxFor(cause, pre string) (context.Context, func()) {
 	}
 }
 
-// await runs f under the watchdog; ok=false means it never returned.
+// await runs f under the watchdog; ok=false means it never returned. A panic inside f is recorded in lastPanic.
+var lastPanic string
+
 func await(f func()) bool {
 	done := make(chan struct{})
-	go func() { f(); close(done) }()
+	lastPanic = ""
+	go func() {
+		defer func() {
+			if p := recover(); p != nil {
+				lastPanic = fmt.Sprintf("%v\n%s", p, debug.Stack())
+			}
+			close(done)
+		}()
+		f()
+	}()
 	select {
 	case <-done:
 		return true
@@ -137,6 +149,14 @@ func await(f func()) bool {
 }
 
 func c17tRun(in c17tInput) (msg, key string, infra bool) {
+	msg, key, infra = c17tRun1(in)
+	if lastPanic != "" {
+		return "the library panicked: " + short(lastPanic), fmt.Sprintf("symptom=panic transport=%s op=%s cause=%s", in.Transport, in.Op, in.Cause), false
+	}
+	return msg, key, infra
+}
+
+func c17tRun1(in c17tInput) (msg, key string, infra bool) {
 	k := fmt.Sprintf("transport=%s op=%s cause=%s", in.Transport, in.Op, in.Cause)
 	switch in.Op {
 	case "read":
